@@ -35,6 +35,8 @@ Definition mon_step (m : mon) (o : obs) : option N * mon :=
   | KSetParam =>
       if m_started m && o_ret o then (Some 2, m) else (None, m)
   | KTake =>
+      (* "If output is acquired via BrotliEncoderTakeOutput, then operation should be repeated
+         after output buffer is drained": draining alone does not complete a request *)
       (None, {| m_started := m_started m; m_fin := o_fin o || m_fin m; m_finacc := m_finacc m || o_finish_accepted o;
                 m_flushing := o_flush_pending o; m_meta := m_meta m |})
   | KStream =>
